@@ -142,6 +142,8 @@ def run(repo: Repo, chk: Check, thorough: bool = False) -> None:
             s = const_str(c)
             if s and '%s' in s:
                 wrap = s
+            if isinstance(c, ast.JoinedStr):       # the same wrapper as an f-string
+                wrap = ''.join(str(v.value) if isinstance(v, ast.Constant) else '%s' for v in c.values)
     ok = wrap.startswith('(?s:') and wrap.rstrip().endswith('\\Z') and '%s' in wrap
     chk.ob('R13.1', 'qnmatch.translate :: whole-name match, dot matches everything', ok,
            f'wrapper {wrap!r}' if ok else f'wrapper {wrap!r} lost the DOTALL group or the end anchor: a pattern would match a prefix of the name', tr.loc)
@@ -158,8 +160,17 @@ def run(repo: Repo, chk: Check, thorough: bool = False) -> None:
             if isinstance(tb, ast.Compare) and norm(tb.left) == cvar and const_str(tb.comparators[0]) == '[':
                 br = n
     neg = esc2 = False
+    from ..util import scope_nodes
+    # the [seq] branch together with the private helpers it hands the set to (`res += _translate_seq(pat[i:j])`)
+    br_nodes: List[ast.AST] = []
     if br is not None:
-        for n in ast.walk(br):
+        br_nodes = list(ast.walk(br))
+        called = {call_name(c) for c in br_nodes if isinstance(c, ast.Call)}
+        for g_ in repo.funcs.values():
+            if g_.mod is tr.mod and g_ is not tr and g_.name in called:
+                br_nodes += scope_nodes(repo, g_, depth=2)
+    if br is not None:
+        for n in br_nodes:
             if isinstance(n, ast.If):
                 tn, nyes, nno = if_branches(n)
                 if isinstance(tn, ast.Compare) and isinstance(tn.left, ast.Subscript) and norm(tn.left.slice) == '0':
@@ -169,9 +180,9 @@ def run(repo: Repo, chk: Check, thorough: bool = False) -> None:
                         esc2 = True
     if br is not None and not neg:
         # the test kept in a local first: `negated = stuff[0] == '!'` ... `if negated: stuff = '^' + stuff`
-        flags = {t.id for a in ast.walk(br) if isinstance(a, ast.Assign) and isinstance(a.value, ast.Compare) and isinstance(a.value.left, ast.Subscript) and
+        flags = {t.id for a in br_nodes if isinstance(a, ast.Assign) and isinstance(a.value, ast.Compare) and isinstance(a.value.left, ast.Subscript) and
                  norm(a.value.left.slice) == '0' and const_str(a.value.comparators[0]) == '!' for t in a.targets if isinstance(t, ast.Name)}
-        for n in ast.walk(br):
+        for n in br_nodes:
             if isinstance(n, ast.If):
                 tn, nyes, nno = if_branches(n)
                 if isinstance(tn, ast.Name) and tn.id in flags and any("'^'" in norm(s_) for s_ in nyes):
@@ -199,8 +210,7 @@ def run(repo: Repo, chk: Check, thorough: bool = False) -> None:
         raise AnalysisError(f'R13.1: {n_guard} guarded cursor reads found in translate (4 confirmed by hand)')
     # the text between the brackets is pasted into a regex character class: `a-z` becomes a regex range, and a reversed range (`z-a`), which is
     # just an empty set for the documented matcher, is an error for the regex compiler - unless translate() looks at the hyphens itself
-    helpers_ = [g for g in repo.funcs.values() if g.mod is tr.mod and g is not tr and any(call_name(c) == g.name for c in calls_in(tr))]
-    hyphen = any(isinstance(n, ast.Constant) and isinstance(n.value, str) and n.value == '-' for g in [tr] + helpers_ for n in g.walk())
+    hyphen = any(isinstance(n, ast.Constant) and isinstance(n.value, str) and n.value == '-' for n in scope_nodes(repo, tr, depth=3))
     chk.ob('R13.1', "qnmatch.translate :: ranges inside [seq] are validated before they reach the regex compiler", hyphen,
            'translate() handles `-` inside a set' if hyphen else
            "the set text is inserted verbatim (only backslashes are escaped): `--privacy='PRIVATE:pkg.[z-a]*'` (or `[a-Z]`) makes re.compile raise "
@@ -242,25 +252,39 @@ def run(repo: Repo, chk: Check, thorough: bool = False) -> None:
                f'`{norm(r)}` decides without asking the translated expression: e.g. a depth pre-filter (same number of dots in name and pattern) makes `a?b`, '
                '`a[!x]b` stop matching `a.b`, although `?` and `[!seq]` stand for any one character', repo.loc(qm.mod, r))
     # ------------------------------------------------------------------ R13.2
+    # Role-based: the RULE FUNCTIONS are privacyClass and the private helpers of System it calls; a HIT is the first statement executed under the test that
+    # recognises a rule inside a loop over `options.privacy` - `privacy = priv` or `return priv` - exact when the test is an equality with the qualified
+    # name, pattern when it calls qnmatch.  All ordering statements are reachability statements on the CFG of the function that holds the hits.
     pc = repo.func('pydoctor.model.System.privacyClass')
-    cfg = CFG(pc)
+    from ..util import scope_nodes
+    rule_funcs = [pc] + [g for g in repo.funcs.values() if g.cls is pc.cls and g is not pc and g.name.startswith('_') and any(call_name(c) == g.name for c in calls_in(pc))]
     resv = {n.value.id for n in pc.walk() if isinstance(n, ast.Return) and isinstance(n.value, ast.Name)}
-    fnv = {t.id for n in pc.walk() if isinstance(n, ast.Assign) and norm(n.value).endswith('.fullName()') for t in n.targets if isinstance(t, ast.Name)}
     resv -= {t.id for n in pc.walk() if isinstance(n, ast.Assign) and 'Cache' in norm(n.value) for t in n.targets if isinstance(t, ast.Name)}
-    assigns = [n for n in pc.walk() if isinstance(n, ast.Assign) and any(isinstance(t, ast.Name) and t.id in resv for t in n.targets) and 'Cache' not in norm(n.value)]
-    exact = []
-    patt = []
-    for a in assigns:
-        conds = [p.test for p in parents(a) if isinstance(p, ast.If)]
-        if any(isinstance(t, ast.Compare) and isinstance(t.ops[0], ast.Eq) and (norm(t.left) in fnv or 'fullName' in norm(t)) for t in conds):
-            exact.append(a)
-        elif any('qnmatch' in norm(t) for t in conds):
-            patt.append(a)
+    assigns = [n for g in rule_funcs for n in g.walk() if isinstance(n, ast.Assign) and any(isinstance(t, ast.Name) and t.id in resv for t in n.targets) and 'Cache' not in norm(n.value)]
+    hits: List[Tuple[str, Func, ast.For, ast.If, ast.stmt]] = []
+    for g in rule_funcs:
+        gps = {p_.arg for p_ in g.params()}
+        fnv_g = {t.id for n in g.walk() if isinstance(n, ast.Assign) and norm(n.value).endswith('.fullName()') for t in n.targets if isinstance(t, ast.Name)}
+        for lp in [n for n in g.walk() if isinstance(n, ast.For) and 'options.privacy' in norm(n.iter)]:
+            # the tests of THIS loop: its body only (an `else:` clause runs after the loop), nested rule loops excluded
+            inner_nodes = {id(y) for st in lp.body for z in ast.walk(st) if isinstance(z, ast.For) and 'options.privacy' in norm(z.iter) for y in ast.walk(z)}
+            for i in [x for st in lp.body for x in ast.walk(st) if isinstance(x, ast.If) and id(x) not in inner_nodes]:
+                kind = None
+                if any(isinstance(c, ast.Call) and call_name(c) == 'qnmatch' for c in ast.walk(i.test)):
+                    kind = 'pattern'
+                elif any(isinstance(t, ast.Compare) and len(t.ops) == 1 and isinstance(t.ops[0], ast.Eq) and
+                         any(norm(x) in fnv_g or 'fullName' in norm(x) or (isinstance(x, ast.Name) and x.id in gps and 'name' in x.id.lower()) for x in [t.left] + t.comparators)
+                         for t in ast.walk(i.test)):
+                    kind = 'exact'
+                if kind and i.body:
+                    hits.append((kind, g, lp, i, i.body[0]))
+    exact = [h for h in hits if h[0] == 'exact']
+    patt = [h for h in hits if h[0] == 'pattern']
     if not exact:
         # exact rules collected into a mapping {pattern text: level}: with duplicates the LAST pair inserted stays, so the rules have to be
         # inserted in the order they were given (forward) for the last given rule to win
-        maps = [n for n in pc.walk() if isinstance(n, ast.DictComp) and 'options.privacy' in norm(n.generators[0].iter)] + \
-               [c for c in calls_in(pc) if call_name(c) == 'dict' and c.args and 'options.privacy' in norm(c.args[0])]
+        maps = [n for g in rule_funcs for n in g.walk() if isinstance(n, ast.DictComp) and 'options.privacy' in norm(n.generators[0].iter)] + \
+               [c for g in rule_funcs for c in calls_in(g) if call_name(c) == 'dict' and c.args and 'options.privacy' in norm(c.args[0])]
         if maps:
             m0 = maps[0]
             it = m0.generators[0].iter if isinstance(m0, ast.DictComp) else m0.args[0]
@@ -269,58 +293,80 @@ def run(repo: Repo, chk: Check, thorough: bool = False) -> None:
                    'mapping filled in the order the rules were given: the last one stays' if not rev else
                    f'`{norm(m0)[:70]}`: a mapping keeps the pair inserted LAST, and the rules are inserted in reverse: of two exact rules for the same name the '
                    'one given first wins', repo.loc(pc.mod, m0))
-    if (not exact and not any(o.rule == 'R13.2' and 'exact rule wins' in o.key for o in chk.obligations)) or not patt:
+    mapping_form = any(o.rule == 'R13.2' and 'exact rule wins' in o.key for o in chk.obligations)
+    if (not exact and not mapping_form) or not patt:
         raise AnalysisError('System.privacyClass: exact / pattern assignments not recognised')
-    flags = {t.id for a in exact for s in a._parent.body if isinstance(s, ast.Assign) and isinstance(s.value, ast.Constant) and s.value.value is True  # type: ignore[attr-defined]
-             for t in s.targets if isinstance(t, ast.Name)}
-    for a in patt:
-        tests = cfg.dominating_tests(a)
-        ok = any((isinstance(t, ast.UnaryOp) and isinstance(t.op, ast.Not) and isinstance(t.operand, ast.Name) and t.operand.id in flags and pol) or
-                 (isinstance(t, ast.Name) and t.id in flags and not pol) or
-                 # mapping form: `if name in exact_rules: ... else: <patterns>`
-                 (isinstance(t, ast.Compare) and len(t.ops) == 1 and isinstance(t.ops[0], ast.In) and not pol and (norm(t.left) in fnv or 'fullName' in norm(t.left)))
-                 for t, pol in tests)
-        chk.ob('R13.2', 'model.System.privacyClass :: pattern rules apply only when no exact rule matched', ok,
-               f'dominated by `not {sorted(flags)[0] if flags else "?"}`' if ok else
-               'a pattern rule can override a rule whose pattern equals the qualified name', repo.loc(pc.mod, a))
-    for kind, lst in (('exact', exact), ('pattern', patt)):
-        for a in lst:
-            loop = next((p for p in parents(a) if isinstance(p, ast.For)), None)
-            if loop is None:
-                chk.ob('R13.2', f'model.System.privacyClass :: {kind} rules scanned in a loop', False, 'no loop', repo.loc(pc.mod, a))
+    cfgs: Dict[str, CFG] = {}
+
+    def cfg_of(g: Func) -> CFG:
+        if g.qn not in cfgs:
+            cfgs[g.qn] = CFG(g)
+        return cfgs[g.qn]
+
+    def _leaves(g: Func, lp: ast.For, i: ast.If) -> bool:
+        """after the hit the loop is left on every path (break / return)"""
+        cg_ = cfg_of(g)
+        r = cg_.reachable(i.body[0], avoid_nodes=[x for st in i.body for x in ast.walk(st) if isinstance(x, (ast.Break, ast.Return))], no_exc=True)
+        return id(lp) not in r
+    # pattern rules apply only when no exact rule matched: no pattern hit is reachable from an exact hit (boolean flags set next to the hit propagated)
+    for kind_p, gp, lp_p, ip, hp in patt:
+        reach_from_exact = False
+        for kind_e, ge, lp_e, ie, he in exact:
+            if ge is not gp:
                 continue
-            rev = isinstance(loop.iter, ast.Call) and call_name(loop.iter) == 'reversed'
-            brk = any(isinstance(s, ast.Break) for s in a._parent.body)  # type: ignore[attr-defined]
-            ok = (rev and brk) or (not rev and not brk)
-            chk.ob('R13.2', f'model.System.privacyClass :: the last given {kind} rule wins', ok,
-                   'reversed(...) + break (first hit from the end)' if rev and brk else 'forward scan, last hit wins' if ok else
-                   ('forward scan with break: the FIRST given rule wins' if brk else 'reversed scan without break: the FIRST given rule wins'),
-                   repo.loc(pc.mod, loop))
-            src = norm(loop.iter)
-            chk.ob('R13.2', f'model.System.privacyClass :: {kind} scan covers all --privacy rules', 'options.privacy' in src and '[' not in src,
-                   src, repo.loc(pc.mod, loop))
-    for a in patt:
-        loop = next((p for p in parents(a) if isinstance(p, ast.For)), None)
-        if loop is None or not isinstance(loop.target, ast.Tuple):
+            cg_ = cfg_of(ge)
+            flags = {t.id: n.value.value for st in ie.body for n in ast.walk(st) if isinstance(n, ast.Assign) and isinstance(n.value, ast.Constant) and
+                     isinstance(n.value.value, bool) for t in n.targets if isinstance(t, ast.Name)}
+
+            def known(e: ast.AST) -> Optional[bool]:
+                if isinstance(e, ast.Name) and e.id in flags:
+                    return flags[e.id]
+                if isinstance(e, ast.UnaryOp) and isinstance(e.op, ast.Not):
+                    k = known(e.operand)
+                    return None if k is None else not k
+                return None
+            dead = [(nid, id(t), k) for nid, edges in cg_.succ.items() for (t, l, k) in edges if l is not None and known(l[0]) is not None and known(l[0]) != l[1]]
+            # the hit itself stays in the loop only through the loop head: start after the statements of the hit block
+            r = cg_.reachable(he, avoid_edges=dead, avoid_nodes=[lp_e] if _leaves(ge, lp_e, ie) else [], no_exc=True)
+            if id(hp) in r:
+                reach_from_exact = True
+        if mapping_form and not exact:
+            tests = cfg_of(gp).dominating_tests(hp)
+            reach_from_exact = not any(isinstance(t, ast.Compare) and len(t.ops) == 1 and isinstance(t.ops[0], ast.In) and not pol for t, pol in tests)
+        chk.ob('R13.2', 'model.System.privacyClass :: pattern rules apply only when no exact rule matched', not reach_from_exact,
+               'no pattern hit is reachable once an exact rule has matched' if not reach_from_exact else
+               'a pattern rule can override a rule whose pattern equals the qualified name', repo.loc(gp.mod, hp))
+    for kind, g, lp, i, h in hits:
+        rev = isinstance(lp.iter, ast.Call) and call_name(lp.iter) == 'reversed'
+        brk = _leaves(g, lp, i)
+        ok = (rev and brk) or (not rev and not brk)
+        chk.ob('R13.2', f'model.System.privacyClass :: the last given {kind} rule wins', ok,
+               'reversed(...) and the loop is left at the first hit (first hit from the end)' if rev and brk else 'forward scan, last hit wins' if ok else
+               ('forward scan left at the first hit: the FIRST given rule wins' if brk else 'reversed scan that goes on after a hit: the FIRST given rule wins'),
+               repo.loc(g.mod, lp))
+        src = norm(lp.iter)
+        chk.ob('R13.2', f'model.System.privacyClass :: {kind} scan covers all --privacy rules', 'options.privacy' in src and '[' not in src,
+               src, repo.loc(g.mod, lp))
+    for kind, g, lp, ifn, h in patt:
+        if not isinstance(lp.target, ast.Tuple):
             continue
-        ifn = next((p for p in parents(a) if isinstance(p, ast.If) and 'qnmatch' in norm(p.test)), None)
-        only_match = ifn is not None and isinstance(ifn.test, ast.Call) and call_name(ifn.test) == 'qnmatch'
+        only_match = isinstance(ifn.test, ast.Call) and call_name(ifn.test) == 'qnmatch'
         chk.ob('R13.2', 'model.System.privacyClass :: a pattern rule applies exactly when it matches the name', bool(only_match),
                f'if {norm(ifn.test)[:60]}' if only_match else
-               f'`{norm(ifn.test)[:90] if ifn is not None else "?"}` adds a condition to the match: a later rule that matches but restates the current level is skipped, '
-               'so an earlier matching rule decides ("the rule given last wins" fails)', repo.loc(pc.mod, ifn if ifn is not None else loop))
-        mv_ = loop.target.elts[1].id if len(loop.target.elts) == 2 and isinstance(loop.target.elts[1], ast.Name) else None
-        skips = [x for st in loop.body for x in ast.walk(st) if isinstance(x, ast.If) and x is not ifn and mv_ is not None and
+               f'`{norm(ifn.test)[:90]}` adds a condition to the match: a later rule that matches but restates the current level is skipped, '
+               'so an earlier matching rule decides ("the rule given last wins" fails)', repo.loc(g.mod, ifn))
+        mv_ = lp.target.elts[1].id if len(lp.target.elts) == 2 and isinstance(lp.target.elts[1], ast.Name) else None
+        skips = [x for st in lp.body for x in ast.walk(st) if isinstance(x, ast.If) and x is not ifn and mv_ is not None and
                  any(isinstance(y, ast.Name) and y.id == mv_ for y in ast.walk(x.test)) and any(isinstance(z, (ast.Continue, ast.Break)) for z in x.body)]
         chk.ob('R13.2', 'model.System.privacyClass :: every rule goes through the matcher', not skips,
                'no rule is filtered out by its text before qnmatch' if not skips else
                f'`if {norm(skips[0].test)[:70]}: continue` decides from the text of the rule whether it is a pattern: rules whose only wildcard is a `[seq]` set '
-               'are never matched', repo.loc(pc.mod, skips[0] if skips else loop))
+               'are never matched', repo.loc(g.mod, skips[0] if skips else lp))
     # default
-    dflt = [n for n in pc.walk() if isinstance(n, ast.If) and "startswith('_')" in norm(n.test)]
+    dflt = [n for g in rule_funcs for n in g.walk() if isinstance(n, ast.If) and "startswith('_')" in norm(n.test)]
     ok = bool(dflt) and "startswith('__')" in norm(dflt[0].test) and "endswith('__')" in norm(dflt[0].test) and 'not' in norm(dflt[0].test) and \
         any('PRIVATE' in norm(s) for s in dflt[0].body)
-    init = [a for a in assigns if 'PUBLIC' in norm(a.value)]
+    init = [a for a in assigns if 'PUBLIC' in norm(a.value)] + [r for g in rule_funcs for r in g.walk() if isinstance(r, (ast.Return, ast.Assign)) and r.value is not None and 'PUBLIC' in norm(r.value)]
     chk.ob('R13.2', 'model.System.privacyClass :: default privacy from the name', ok and bool(init),
            "PUBLIC, PRIVATE for a leading underscore unless dunder" if ok and init else 'default rule changed', pc.loc)
     # cache keyed by the full name
@@ -360,10 +406,22 @@ def run(repo: Repo, chk: Check, thorough: bool = False) -> None:
     # ------------------------------------------------------------------ R13.3
     pp = repo.func('pydoctor.utils.parse_privacy_tuple')
     look = [n for n in pp.walk() if isinstance(n, ast.Subscript) and 'PrivacyClass' in norm(n.value)]
-    ok = bool(look) and '.upper()' in norm(look[0].slice) and 'strip()' in norm(look[0].slice) and '[0]' in norm(look[0].slice)
+    # which piece of the split value an expression reads: `parts[k]`, or a name bound at position k by `a, b = parts`
+    unpacked = {t.id: k for a in pp.walk() if isinstance(a, ast.Assign) and isinstance(a.targets[0], ast.Tuple) and isinstance(a.value, (ast.Name, ast.Call))
+                for k, t in enumerate(a.targets[0].elts) if isinstance(t, ast.Name)}
+
+    def piece(e: ast.AST) -> Set[int]:
+        out = set()
+        for x in ast.walk(e):
+            if isinstance(x, ast.Subscript) and isinstance(x.slice, ast.Constant) and isinstance(x.slice.value, int):
+                out.add(x.slice.value)
+            if isinstance(x, ast.Name) and x.id in unpacked:
+                out.add(unpacked[x.id])
+        return out
+    ok = bool(look) and '.upper()' in norm(look[0].slice) and 'strip()' in norm(look[0].slice) and piece(look[0].slice) == {0}
     chk.ob('R13.3', 'utils.parse_privacy_tuple :: level looked up case-insensitively', ok, norm(look[0]) if look else 'lookup not found', pp.loc)
     rets = [n for n in pp.walk() if isinstance(n, ast.Return) and isinstance(n.value, ast.Tuple)]
-    ok = bool(rets) and '[1]' in norm(rets[0].value.elts[1])
+    ok = bool(rets) and piece(rets[0].value.elts[1]) == {1}
     chk.ob('R13.3', 'utils.parse_privacy_tuple :: pattern is the text after the colon', ok, norm(rets[0].value) if rets else 'return not found', pp.loc)
     sp = [c for c in calls_in(pp) if call_name(c) == 'split']
     ok = bool(sp) and any(isinstance(n, ast.Compare) and 'len(' in norm(n.left) and norm(n.comparators[0]) == '2' for n in pp.walk())
